@@ -35,6 +35,34 @@ type c04Step struct {
 	// "check if negotiation is needed" steps (pion's own checkNegotiationNeeded, recomputed from
 	// scratch by the harness) say that nothing has to be negotiated: a need raised earlier is gone
 	NoNeed bool `json:"no_need,omitempty"`
+	// RTSending (RemoveTrack only): the removed sender's m-section in X's CURRENT local description said
+	// sendrecv or sendonly (read from the SDP text by the harness): the description no longer matches the
+	// transceiver, so the call is a change that requires renegotiation
+	RTSending bool `json:"rt_sending,omitempty"`
+}
+
+// c04SectionSends reports whether the m-section with the given mid in an SDP text carries a=sendrecv or a=sendonly.
+func c04SectionSends(sdpText, mid string) bool {
+	in, sends, found := false, false, false
+	for _, l := range strings.Split(sdpText, "\r\n") {
+		if strings.HasPrefix(l, "m=") {
+			if in && found {
+				return sends
+			}
+			in, sends, found = true, false, false
+		}
+		if !in {
+			continue
+		}
+		if l == "a=mid:"+mid {
+			found = true
+		}
+		if l == "a=sendrecv" || l == "a=sendonly" {
+			sends = true
+		}
+	}
+
+	return in && found && sends
 }
 
 type c04Obs struct {
@@ -91,6 +119,11 @@ func c04Run(t *testing.T, hist []string) (*c04Obs, *vsched.Result) {
 				if snd == nil {
 					valid = false
 				} else {
+					for _, tr := range x.GetTransceivers() {
+						if cur := x.CurrentLocalDescription(); tr.Sender() == snd && tr.Mid() != "" && cur != nil {
+							st.RTSending = c04SectionSends(cur.SDP, tr.Mid())
+						}
+					}
 					err = x.RemoveTrack(snd)
 				}
 			case "TK":
@@ -294,10 +327,12 @@ func c04Judge(hist []string, o *c04Obs) [][2]string {
 			}
 		}
 	}
-	// 3. liveness: after AddTrack / AddTransceiver / first CreateDataChannel it fires once the connection is stable
+	// 3. liveness: after AddTrack / AddTransceiver / first CreateDataChannel / RemoveTrack of a sender whose section
+	// the current local description announces as sending, it fires once the connection is stable (an AddTrack after
+	// such a RemoveTrack may take the transceiver back into use and withdraw the need)
 	firstDC := true
 	for i, s := range o.Steps {
-		needs := (s.Op == "AT" || s.Op == "ATv" || s.Op == "TK" || (s.Op == "DC" && firstDC)) && s.Err == ""
+		needs := (s.Op == "AT" || s.Op == "ATv" || s.Op == "TK" || (s.Op == "DC" && firstDC) || (s.Op == "RT" && s.RTSending)) && s.Err == ""
 		if s.Op == "DC" && s.Err == "" {
 			firstDC = false
 		}
@@ -308,7 +343,7 @@ func c04Judge(hist []string, o *c04Obs) [][2]string {
 		j := -1
 		silent := false
 		for k := i; k < len(o.Steps); k++ {
-			if k > i && (o.Steps[k].Created || o.Steps[k].Op == "CL" || o.Steps[k].Op == "RT") {
+			if k > i && (o.Steps[k].Created || o.Steps[k].Op == "CL" || o.Steps[k].Op == "RT" || (s.Op == "RT" && (o.Steps[k].Op == "AT" || o.Steps[k].Op == "ATv"))) {
 				// an offer/answer created after the change may already carry it; closing ends the obligation;
 				// a RemoveTrack may undo the change so that no negotiation is needed any more
 				silent = true
